@@ -10,6 +10,7 @@ CONSTANTS
   EnvOps <- EnvOpsSelf
   KillCarriesState = TRUE
   Once = TRUE
+  MonPairs <- MonPairsSelf
   Undecodable = {1}
 INVARIANTS
   OrderOk PostStopOnlyGraceful NoOverlap NoStartAfterKill NoHandlerAfterStop KillWins SupBeforeMsg
